@@ -26,9 +26,12 @@ def first_index(s):
     return int(m.group(1)) if m else None
 
 def standard(ctx, props, harness=None, obl=None, cases=None, trusted=(), assumptions=(), unproved=None,
-             pkg="cmd/keymasterd", race=False, checker=None, timeout=1500, env=None, extra_gen=(), extra_overlay=None):
+             pkg="cmd/keymasterd", race=False, checker=None, timeout=1500, env=None, extra_gen=(), extra_overlay=None, violating=None):
     """props: list of (module, [theorems]); harness: (test name, [files]); obl: (file, [names]);
-       cases: (file, [(definition name, label)], idx file or None)"""
+       cases: (file, [(definition name, label)], idx file or None);
+       violating: [(definition name, class, idx file)] - index lists printed by the case file: the cases on which the
+       OBSERVED output violates the property's own predicate as the model's specification judges it (evaluated in
+       Coq); each becomes an oracle hit `Cxx:model-oracle:<class>` whose input is the case's idx line"""
     for mod, thms in props:
         ctx.audit(mod, thms)
     gen = ctx.extract()
@@ -61,6 +64,17 @@ def standard(ctx, props, harness=None, obl=None, cases=None, trusted=(), assumpt
                         if i < len(lines):
                             first = lines[i]
                     ctx.broken.append(("correspondence", name, {"label": label, "first_mismatch": first, "indices": (mism or "")[:400]}))
+            for name, klass, idxf in (violating or []):
+                val = res.get(name)
+                if not val or val == "[]":
+                    continue
+                lines = []
+                if idxf and os.path.exists(os.path.join(ctx.work, idxf)):
+                    lines = open(os.path.join(ctx.work, idxf)).read().split("\n")
+                for i in [int(x) for x in re.findall(r"(\d+)", val)][:20]:
+                    case = lines[i] if i < len(lines) else "case #%d" % i
+                    ctx.hits.append({"key": "%s:model-oracle:%s" % (ctx.pid, klass), "oracle": "property predicate evaluated in Coq on the observed output of a case (the implementation is more permissive than the specification)",
+                                     "what": case[:600], "case": {"index": i, "line": case}, "kind": "input"})
     ctx.assumptions = list(assumptions)
     return ctx.finish(checker or ("bin/build-coq; coqc Audit_*/Obl_*/Cases* (lib/core.py); go test -overlay " + (harness[0] if harness else "")),
                       COMMON_TRUSTED + list(trusted), unproved)
